@@ -13,70 +13,6 @@ impl VxFromStr for dc_fields::Priority {
     fn vx_from_str(s: &str) -> (r: Result<dc_fields::Priority, String>) { dc_fields::Priority::from_str(s) }
 }
 
-pub open spec fn ws_free(t: Seq<char>) -> bool { t.len() > 0 && forall|i: int| 0 <= i < t.len() ==> !is_unicode_ws(#[trigger] t[i]) }
-pub open spec fn sp1() -> Seq<char> { seq![' '] }
-
-// ---- facts about split_whitespace on space-joined tokens ------------------------------------------
-pub proof fn lemma_prefix_while_token(t: Seq<char>, rest: Seq<char>)
-    requires ws_free(t), rest.len() == 0 || is_unicode_ws(rest[0])
-    ensures prefix_while(t + rest, |c: char| !is_unicode_ws(c)) == t.len()
-    decreases t.len()
-{
-    let p = |c: char| !is_unicode_ws(c);
-    let s = t + rest;
-    assert(s[0] == t[0]);
-    if t.len() == 1 {
-        assert(s.skip(1) =~= rest);
-        assert(prefix_while(rest, p) == 0);
-    } else {
-        assert(s.skip(1) =~= t.skip(1) + rest);
-        assert(ws_free(t.skip(1))) by { assert forall|i: int| 0 <= i < t.skip(1).len() implies !is_unicode_ws(#[trigger] t.skip(1)[i]) by { assert(t.skip(1)[i] == t[i + 1]); } }
-        lemma_prefix_while_token(t.skip(1), rest);
-    }
-}
-/// a token followed by end of text, or by a space and more text
-pub proof fn lemma_ws_tokens_cons(t: Seq<char>, rest: Seq<char>)
-    requires ws_free(t), rest.len() == 0 || is_unicode_ws(rest[0])
-    ensures ws_tokens(t + rest) == seq![t] + ws_tokens(rest)
-{
-    let s = t + rest;
-    assert(s[0] == t[0]);
-    assert(trim_start_spec(s) == s);
-    lemma_prefix_while_token(t, rest);
-    assert(s.take(t.len() as int) =~= t);
-    assert(s.skip(t.len() as int) =~= rest);
-}
-pub proof fn lemma_ws_tokens_space(rest: Seq<char>)
-    ensures ws_tokens(sp1() + rest) == ws_tokens(rest)
-    decreases rest.len()
-{
-    let s = sp1() + rest;
-    assert(s[0] == ' ');
-    assert(s.skip(1) =~= rest);
-    assert(trim_start_spec(s) == trim_start_spec(rest));
-    lemma_trim_start_len(rest);
-}
-pub proof fn lemma_trim_start_len(s: Seq<char>)
-    ensures trim_start_spec(s).len() <= s.len(), ws_tokens(s) == ws_tokens(trim_start_spec(s))
-    decreases s.len()
-{
-    if s.len() > 0 && is_unicode_ws(s[0]) {
-        lemma_trim_start_len(s.skip(1));
-        lemma_trim_start_idem(s.skip(1));
-    } else {
-    }
-    lemma_trim_start_idem(s);
-}
-pub proof fn lemma_trim_start_idem(s: Seq<char>)
-    ensures trim_start_spec(trim_start_spec(s)) == trim_start_spec(s), trim_start_spec(s).len() <= s.len()
-    decreases s.len()
-{
-    if s.len() > 0 && is_unicode_ws(s[0]) { lemma_trim_start_idem(s.skip(1)); }
-}
-pub proof fn lemma_ws_tokens_empty()
-    ensures ws_tokens(Seq::<char>::empty()) == Seq::<Seq<char>>::empty()
-{
-}
 /// three tokens joined by single spaces
 pub proof fn lemma_ws_tokens3(a: Seq<char>, b: Seq<char>, c: Seq<char>)
     requires ws_free(a), ws_free(b), ws_free(c)
